@@ -199,7 +199,10 @@ func c19Check(c c19Case, st *stats.Run) error {
 				return pbt.Failf(key, "action %d: file with stanzas %v (answer %s, mismatched key file: %v): outcome %s (%v), a fresh identity gives %s; %s", n, a.Stanzas, a.Answer, c.Mismatched, outcome, derr, want, hist)
 			}
 		}
-		if !validated && match && !malformed && want == "success" {
+		// the key is remembered once a prompt was answered with the right
+		// passphrase and the key belongs to the declared public key, whatever
+		// the stanzas after that made of the call
+		if !validated && asked == 1 && a.Answer == "right" && !c.Mismatched {
 			validated = true
 		}
 		if asked > 0 && outcome != "success" && earlierFailure == "" {
